@@ -1,5 +1,5 @@
 (* InvBid: preservation of the bid-side invariant (exact quote/base relation, pro-rata fee held). *)
-From ATS Require Import Prelude Dec DecFacts Uuid Semver Types Contract Tactics Spec Inv InvAsk BidFacts.
+From ATS Require Import Prelude Dec DecFacts Uuid Semver Types Contract Tactics Spec ExactFacts Inv InvAsk BidFacts.
 Ltac Zify.zify_post_hook ::= Z.div_mod_to_equations.
 
 (* the product formed for n units at price p carries the exact value (outside the class K_inexact) *)
@@ -98,25 +98,36 @@ Proof.
   rewrite Hm in Ht. injection Ht as <-. congruence.
 Qed.
 
+(* an explicit partial size is a lot multiple, so its product with the price is exact: no side condition *)
+Lemma lot_exact_at st c k b p s tq :
+  InvA st -> InvB st -> st_cfg st = Some c -> lookup k (st_bids st) = Some (SlotV3 b) -> dec_parse (b_price b) = Some p ->
+  s mod cf_increment c = 0 -> mul_size p s = Ok tq -> exact_at p s tq.
+Proof.
+  intros HA HB Hc Hl Hp Hlot Hm. destruct (inv_cfg st HA) as (c0 & Hc0 & Hok). rewrite Hc in Hc0. injection Hc0 as <-.
+  destruct Hok as (_ & Hinc1 & Hincm & _). apply mul_size_inv in Hm as [Hs96 Hmul].
+  pose proof (dec_parse_wf _ _ Hp) as [Hsc _].
+  eapply lot_product_exact; eauto; [eapply inv_prec; eauto|lia].
+Qed.
+
 Lemma InvB_reverse_bid e st sender funds id action is_cancel csz st' r :
   InvA st -> InvB st ->
-  (forall b p s tq, lookup id (st_bids st) = Some (SlotV3 b) -> dec_parse (b_price b) = Some p -> csz = Some s ->
-                    mul_size p s = Ok tq -> exact_at p s tq) ->
   reverse_bid FX e st sender funds id action is_cancel csz = Ok (st', r) -> InvB st'.
 Proof.
-  intros HA HB Hclean H.
-  apply reverse_bid_inv in H as (c & b & rb & eff & p & tq & cq & back & b' & rb' & _ & Hc & Hl & _ & Hrb & Heff & _ &
+  intros HA HB H.
+  apply reverse_bid_inv in H as (c & b & rb & eff & p & tq & cq & back & b' & rb' & _ & Hc & Hl & _ & Hrb & Heff & Hlot &
     Hle & Hp & Hm & Hfr & Hcq & Hfb & Hacc & Hrb' & -> & _).
   destruct (inv_bids st HB c id _ Hc Hl) as (b0 & Hb0 & Hok). injection Hb0 as <-.
   destruct (N.eqb_spec rb' 0) as [Hz|Hnz]; [apply InvB_remove_bid; exact HB|].
   assert (Hid : b_id b = id) by apply Hok. rewrite Hid.
-  apply InvB_insert_bid; [exact HB|]. intros c' Hc'. rewrite Hc in Hc'. injection Hc' as <-.
   pose proof Hok as (_ & _ & _ & _ & _ & _ & _ & _ & (p0 & Hp0 & HQ & HU) & Hfee).
   assert (Hpp : p0 = p) by (destruct Hp0 as [Hx _]; congruence). subst p0.
   apply remaining_base_ok in Hrb as [-> Hab]. apply accumulate_eq in Hacc.
+  apply InvB_insert_bid; [exact HB| |].
+  2:{ intros c' p' Hc' Hp'. rewrite Hc in Hc'. injection Hc' as <-. rewrite Hacc in Hp'. cbn [b_price] in Hp'. eapply inv_prec; eauto. }
+  intros c' Hc'. rewrite Hc in Hc'. injection Hc' as <-.
   assert (Hdy : cq * 10 ^ d_scale p = d_mant p * eff).
   { destruct csz as [s|].
-    - subst eff. eapply mul_size_units; eauto.
+    - subst eff. eapply mul_size_units; eauto. eapply lot_exact_at; eauto.
     - subst eff. rewrite (full_exit_quote c id b p tq cq Hok Hp0 Hm Hfr Hcq). exact HU. }
   assert (Hdx : eff < unfilled b).
   { apply remaining_base_ok in Hrb' as [Hr _]. rewrite Hacc in Hr. unfold unfilled in *. cbn in Hr. lia. }
@@ -143,22 +154,36 @@ Proof.
   apply of_opt_ok in H. eapply round_to_u128_lt; [|exact H]. exact (dec_mul_wf rate total pr Hr Ht Hpr).
 Qed.
 
+Lemma create_bid_exact st c price size p total :
+  InvA st -> st_cfg st = Some c -> valid_price price (cf_precision c) = Ok p -> size mod cf_increment c = 0 ->
+  mul_size p size = Ok total -> exact_at p size total.
+Proof.
+  intros HA Hc Hp Hlot Hm. destruct (inv_cfg st HA) as (c0 & Hc0 & Hok). rewrite Hc in Hc0. injection Hc0 as <-.
+  destruct Hok as (Hprec & Hinc1 & Hincm & _). apply mul_size_inv in Hm as [Hs96 Hmul].
+  pose proof (valid_price_of _ _ _ Hp) as (_ & _ & _ & Hsc).
+  eapply lot_product_exact; eauto; [eapply valid_price_within; eauto|lia].
+Qed.
+
 Lemma InvB_create_bid e st sender funds id base fee price quote qsize size st' r :
-  InvB st -> uuid_canonical id = true -> 1 <= qsize -> 1 <= size ->
-  (forall c p total, st_cfg st = Some c -> valid_price price (cf_precision c) = Ok p -> mul_size p size = Ok total ->
-                     exact_at p size total) ->
+  InvA st -> InvB st -> uuid_canonical id = true -> 1 <= qsize -> 1 <= size ->
   create_bid e st sender funds id base fee price quote qsize size = Ok (st', r) -> InvB st'.
 Proof.
-  intros HB Hid Hq1 Hs1 Hclean H.
-  apply create_bid_inv in H as (c & p & total & dq & rate & calc & tot & Hc & Hp & _ & Hm & Hfr & Hdq & Heq & Hrate & Hcalc &
+  intros HA HB Hid Hq1 Hs1 H.
+  apply create_bid_inv in H as (c & p & total & dq & rate & calc & tot & Hc & Hp & Hlot & Hm & Hfr & Hdq & Heq & Hrate & Hcalc &
     Hfee & Hqin & Hbase & _ & Htot & _ & _ & -> & _).
-  apply InvB_insert_bid; [exact HB|]. intros c' Hc'. rewrite Hc in Hc'. injection Hc' as <-.
+  pose proof (create_bid_exact st c price size p total HA Hc Hp Hlot Hm) as Hex.
+  destruct (inv_cfg st HA) as (c0 & Hc0 & Hcok). rewrite Hc in Hc0. injection Hc0 as <-.
+  apply InvB_insert_bid; [exact HB| |].
+  2:{ intros c' p' Hc' Hp'. rewrite Hc in Hc'. injection Hc' as <-. cbn [new_bid b_price] in Hp'.
+      pose proof (valid_price_of _ _ _ Hp) as (Hpp & _). rewrite Hpp in Hp'. injection Hp' as <-.
+      eapply valid_price_within; [apply Hcok|exact Hp]. }
+  intros c' Hc'. rewrite Hc in Hc'. injection Hc' as <-.
   pose proof (valid_price_of _ _ _ Hp) as Hpo. apply dec_from_u128_ok in Hdq as [Hq96 ->].
   pose proof (mul_size_inv _ _ _ Hm) as [Hs96 Hmul].
   assert (Hqnz : qsize <> 0) by lia.
   assert (Htq : tot = qsize) by exact (int_eq_of_dec_eqb total qsize tot Hfr Htot Hqnz Heq). subst tot.
   assert (HQ : qsize * 10 ^ d_scale p = d_mant p * size).
-  { eapply (mul_size_units p size total qsize Hm); [eapply Hclean; eauto|exact Hfr|exact Htot]. }
+  { eapply (mul_size_units p size total qsize Hm); [exact Hex|exact Hfr|exact Htot]. }
   unfold new_bid, bid_ok. cbn [b_id b_base b_quote b_acc_base b_acc_quote b_acc_fee b_fee b_price c_amt c_denom].
   split; [reflexivity|]. split; [apply uuid_canonical_valid; exact Hid|]. split; [exact Hbase|]. split; [exact Hqin|].
   split; [lia|]. split; [lia|]. split; [exact Hs96|]. split; [exact Hq96|]. split.
@@ -200,6 +225,24 @@ Definition clean_match (st : state) (bid_id price : string) (size : N) : Prop :=
     (dec_ltb xp bp = true -> forall t, mul_size bp size = Ok t -> exact_at bp size t) /\
     (forall g1 g2 f1 f2, calculate_fee b g1 = Ok f1 -> calculate_fee b g2 = Ok f2 -> g1 <= g2 -> opt_amt f1 <= opt_amt f2).
 
+(* value-level sufficient conditions: the class K_inexact is contained in "mantissa(price) * size >= 2^96" *)
+Definition small_products (st : state) (bid_id price : string) (size : N) : Prop :=
+  forall b bp xp, lookup bid_id (st_bids st) = Some (SlotV3 b) -> dec_parse (b_price b) = Some bp ->
+    dec_parse price = Some xp -> d_mant xp * size < B96 /\ d_mant bp * size < B96.
+Definition fee_monotone (st : state) (bid_id : string) : Prop :=
+  forall b, lookup bid_id (st_bids st) = Some (SlotV3 b) ->
+    forall g1 g2 f1 f2, calculate_fee b g1 = Ok f1 -> calculate_fee b g2 = Ok f2 -> g1 <= g2 -> opt_amt f1 <= opt_amt f2.
+Lemma clean_match_intro st bid_id price size :
+  small_products st bid_id price size -> fee_monotone st bid_id -> clean_match st bid_id price size.
+Proof.
+  intros Hsm Hmono b bp xp Hl Hbp Hxp. destruct (Hsm b bp xp Hl Hbp Hxp) as [H1 H2].
+  pose proof (dec_parse_wf _ _ Hbp) as [Hsb _]. pose proof (dec_parse_wf _ _ Hxp) as [Hsx _].
+  split; [|split].
+  - intros t Ht. apply mul_size_inv in Ht as [_ Ht]. eapply dec_mul_small_exact; eauto.
+  - intros _ t Ht. apply mul_size_inv in Ht as [_ Ht]. eapply dec_mul_small_exact; eauto.
+  - apply Hmono. exact Hl.
+Qed.
+
 Lemma sub_int_value og_d gross_d diff og gross refund :
   dec_sub_int og_d gross_d = Some diff -> dec_to_u128 diff = Some refund ->
   dec_to_u128 og_d = Some og -> dec_to_u128 gross_d = Some gross -> gross <= og /\ refund = og - gross.
@@ -225,7 +268,14 @@ Proof.
   set (bids' := if rb' =? 0 then _ else _).
   assert (HBB : InvB (set_bids st bids')).
   { unfold bids'. destruct (N.eqb_spec rb' 0) as [Hz|Hnz]; [apply InvB_remove_bid; exact HB|].
-    apply InvB_insert_bid; [exact HB|]. intros c' Hc'. rewrite Hc in Hc'. injection Hc' as <-.
+    assert (Hpr' : b_price b' = b_price b).
+    { apply accumulate_eq in Hfill. unfold improve_spec in Himp. destruct (dec_ltb xp bp).
+      - destruct Himp as (og_d & diff & og & refund & ofee & _ & _ & _ & _ & _ & _ & _ & Hacc & _).
+        apply accumulate_eq in Hacc. rewrite Hacc, Hfill. reflexivity.
+      - destruct Himp as [-> _]. rewrite Hfill. reflexivity. }
+    apply InvB_insert_bid; [exact HB| |].
+    2:{ intros c' p' Hc' Hp'. rewrite Hc in Hc'. injection Hc' as <-. rewrite Hpr' in Hp'. eapply inv_prec; eauto. }
+    intros c' Hc'. rewrite Hc in Hc'. injection Hc' as <-.
     pose proof Hok as (_ & _ & _ & _ & _ & _ & _ & _ & (p0 & Hp0 & HQ & HU) & Hfee).
     assert (Hpp : p0 = bp) by (destruct Hp0 as [Hx _]; congruence). subst p0.
     destruct (Hclean b bp xp Hlb Hbp Hxp) as (Hex1 & Hex2 & Hmono).
@@ -271,5 +321,5 @@ Proof.
       destruct (b_fee b) as [f|] eqn:Ef.
       + destruct Hcf as (keep & _ & Hk & Hkle & Hb1). exists keep. auto.
       + subst bfee. reflexivity. }
-  destruct HBB as [H1 H2]. constructor; cbn in *; auto.
+  destruct HBB as [H1 H2 H3]. constructor; cbn in *; auto.
 Qed.
